@@ -43,6 +43,9 @@ def sequence_menu():
     for p in (5, 31, 32, 63):
         with_n[p] = "N"
     with_n = "".join(with_n) + "NNNN" + "ACGTTGCA"
+    long_dna = list(_dna_text(rm.lcg_ranks(1100, 4, 99)))
+    long_dna[700] = "N"
+    long_dna = "".join(long_dna)
     prot = rm.lcg_ranks(50, 20, 17)
     prot[7] = 20
     prot[33] = 20
@@ -54,6 +57,7 @@ def sequence_menu():
         ("empty", "", False),
         ("protein50", rm.ranks_to_text(prot, True), True),
         ("len40", s200[100:140], False),
+        ("lcg1100", long_dna, False),
     ]
 
 
